@@ -9,6 +9,7 @@ package middleware
 //@ macro hdr(h, k) = select(select(HdrVal, h), canonKey(k))
 
 //@ func RequestID$1$1
+//@   params w r
 //@   property C19 C20
 //@   requires w != nil && r != nil && r.ctx != nil && h != nil && o != nil
 //   -- capture invariant: the flags read when the middleware was built are those of the options object
@@ -25,6 +26,7 @@ package middleware
 //@   frameprop C20
 
 //@ func (*ResponseCapture).WriteHeader
+//@   params w code
 //@   property C19
 //@   requires w != nil && w.ResponseWriter != nil
 //@   let rw = w.ResponseWriter
@@ -32,6 +34,7 @@ package middleware
 //@   modifies w.StatusCode, whCalls, statusSent, whLastCode
 
 //@ func (*ResponseCapture).Write
+//@   params w b
 //@   property C19
 //@   requires w != nil && w.ResponseWriter != nil
 //@   let rw = w.ResponseWriter
@@ -45,6 +48,7 @@ package middleware
 //@ macro shas(c, k) = typeIs(ctxVal(c, iface(string, k)), string)
 
 //@ func Trace$1$1
+//@   params w r
 //@   property C19 C20
 //@   requires w != nil && r != nil && r.ctx != nil && h != nil && o != nil && sampler != nil
 //@   requires middleware.TraceIDKey != middleware.TraceSpanIDKey && middleware.TraceIDKey != middleware.TraceParentSpanIDKey && middleware.TraceSpanIDKey != middleware.TraceParentSpanIDKey
@@ -61,6 +65,7 @@ package middleware
 //@   frameprop C20
 
 //@ func (*tracedDoer).Do
+//@   params d r
 //@   property C19
 //@   requires d != nil && d.Doer != nil && r != nil && r.ctx != nil && r.Header != nil
 //@   let tv = ctxVal(r.ctx, iface(string, middleware.TraceIDKey))
